@@ -102,7 +102,9 @@ NLNode(n) ==
     [] n.t = "case" -> NLNodes(Fld(n, "pre", <<>>)) + NLBranches(n.whens)
     [] n.t = "for" -> NLNodes(n.body) + NLNodes(Fld(n, "else", <<>>))
     [] n.t = "capture" -> NLNodes(n.body)
-    [] OTHER -> 0
+    \* a tag or object may itself span lines (padnl newlines inside its delimiters): it begins on
+    \* the line it starts, what follows it is that many lines further down
+    [] OTHER -> Fld(n, "padnl", 0)
 
 \* what an object writes: one write per non-nil leaf
 RECURSIVE Leaves(_)
